@@ -42,7 +42,7 @@ def setup_worker():
 
 fl = st.floats
 AFF_KINDS = ["int_t", "near_int_t", "frac_t", "big_t", "scale", "scale_lim", "scale_t_int", "scale_t_frac", "scale_t_uniform",
-             "scale_t_near1", "scale_t_dyadic", "one_axis_scale_shift", "mixed", "shear", "rot", "sing", "huge", "identityish"]
+             "scale_t_near1", "scale_t_dyadic", "scale_t_int_big", "one_axis_scale_shift", "mixed", "shear", "rot", "sing", "huge", "identityish"]
 
 
 @st.composite
@@ -75,6 +75,17 @@ def affine(draw, kinds=AFF_KINDS):
         sx = r(-1.9, 1.9)
         sy = sx if k == "scale_t_uniform" else r(-1.9, 1.9)
         cx, cy = ri(-40000, 40000) if draw(st.integers(0, 9)) == 0 else ri(-2000, 2000), ri(-2000, 2000)
+        return k, [sx, 0, 0, sy, (1 - sx) * cx, (1 - sy) * cy]
+    if k == "scale_t_int_big":
+        # scale about an integral centre with a factor outside F2DOT14 on at least one axis: the scale-around-centre encodings
+        # cannot hold it, the general matrix (16.16) can
+        big = [2.0, 2.5, 3.0, 4.0, -2.5, -3.0, 8.0, F2MAX + 1e-9]
+        small = [0.5, 1.5, -1.0, 1.0, 1.99]
+        sx = draw(st.sampled_from(big))
+        sy = draw(st.sampled_from(big + small + [sx, sx]))
+        if draw(st.booleans()):
+            sx, sy = sy, sx
+        cx, cy = ri(-2000, 2000), ri(-2000, 2000)
         return k, [sx, 0, 0, sy, (1 - sx) * cx, (1 - sy) * cy]
     if k == "scale_t_dyadic":
         dy_ = [0.5, 0.75, 0.25, 1.5, -0.5, -1.0, 1.25, 1.75, 0.875, 1.0]
